@@ -462,8 +462,9 @@ pub struct HwMonitor {
 
 pub const CODE_RIP: u64 = CODE + 0x1000 - 0x40;
 
+/// C05 judges the address of every memory operand, whatever the instruction
 fn is_address_probe(ins: &Instruction) -> bool {
-    has_mem_operand(ins) && matches!(ins.mnemonic(), Mnemonic::Lea | Mnemonic::Mov | Mnemonic::Movzx | Mnemonic::Movsxd | Mnemonic::Movups | Mnemonic::Movd)
+    has_mem_operand(ins)
 }
 
 fn reports(prop: &str, fam: Family, ins: &Instruction, class: Class) -> bool {
